@@ -39,20 +39,43 @@ def render (d : DSt) : String :=
   s!"live={s.live.length} made={s.nextInst} mapped={if s.swampMap.isSome then 1 else 0} cur={cur} slots=[{" ".intercalate slots}]" ++
     (if s.live.length > 1 then "\t#F:" ++ finding else "")
 
-/-- the waiter of slot `σ`, if any -/
-def waiterOf (d : DSt) (σ : Nat) : Option Nat :=
-  threads.find? fun t => (d.s.thr t).pc == .waiting && (d.s.thr t).slot == σ
+def wokenOn (d : DSt) (σ : Nat) : List Nat :=
+  threads.filter fun t => (d.s.thr t).pc == .woken && (d.s.thr t).slot == σ
 
-/-- `ready = false; Broadcast()` by `t`, then the woken waiter (if any) enters -/
-def unready (d : DSt) (t : Nat) : DSt × String :=
+/-- After a Broadcast on slot `σ`: every woken thread re-evaluates its loop once.  If the slot is
+    free one of them enters — which one is the runtime's choice: the observed thread `obs` when
+    the model enables it, else the lowest.  The others find `ready` set: a cancelled one gives up
+    (its Broadcast wakes the sleepers again), the rest go back to sleep. -/
+def settleSlot (d : DSt) (σ : Nat) (obs : Option Nat) : DSt × String :=
+  let ws := wokenOn d σ
+  let (d, entered) :=
+    if (d.s.slots σ).owner.isNone then
+      match (match obs with | some e => if ws.contains e then some e else ws.head? | none => ws.head?) with
+      | some e => (act d (.enter e), some e)
+      | none => (d, none)
+    else (d, none)
+  let rec loop (d : DSt) (gave : List Nat) : Nat → DSt × List Nat
+    | 0 => (d, gave)
+    | fuel + 1 =>
+      match (wokenOn d σ).head? with
+      | none => (d, gave)
+      | some y =>
+        if (d.s.slots σ).owner.isSome && d.cancelled y then
+          let d := act d (.giveUp y)
+          let d := if d.cfg.refCounted then act d (.leaveDec y) else d
+          loop d (gave ++ [y]) fuel
+        else loop (act d (.enter y)) gave fuel
+  let (d, gave) := loop d [] 40
+  let gave := gave.mergeSort (· ≤ ·)
+  (d, (match entered with | some e => s!" woke={e}" | none => "") ++
+      (if gave.isEmpty then "" else " gaveup=[" ++ ",".intercalate (gave.map toString) ++ "]"))
+
+/-- `ready = false; Broadcast()` by `t`, then the woken threads settle -/
+def unready (d : DSt) (t : Nat) (obs : Option Nat) : DSt × String :=
   let σ := (d.s.thr t).slot
-  let w := waiterOf d σ
-  let d := act d (.leaveUnready t)
-  match w with
-  | some x => (act d (.enter x), s!" woke={x}")
-  | none => (d, "")
+  settleSlot (act d (.leaveUnready t)) σ obs
 
-def goThread (d : DSt) (t : Nat) : DSt × String :=
+def goThread (d : DSt) (t : Nat) (obs : Option Nat := none) : DSt × String :=
   let x := d.s.thr t
   match x.pc with
   | .idle =>
@@ -60,35 +83,29 @@ def goThread (d : DSt) (t : Nat) : DSt × String :=
     (d, s!"lookup slot={(d.s.thr t).slot}")
   | .looked =>
     let sl := d.s.slots x.slot
-    if sl.owner.isSome && (waiterOf d x.slot).isSome && !d.cancelled t then (d, "busy")
-    else if sl.owner.isSome && d.cancelled t then
-      -- its Broadcast wakes the slot's waiter, which counts itself again and waits again
+    if sl.owner.isSome && d.cancelled t then
+      -- its Broadcast wakes the slot's sleepers, which find `ready` still set
       let d := act d (.giveUp t)
       -- (reference-counted variant: giving up releases the count at once)
       let d := if d.cfg.refCounted then act d (.leaveDec t) else d
-      let d := threads.foldl (fun d y =>
-        if (d.s.thr y).pc == .woken && (d.s.thr y).slot == x.slot then
-          (if d.cancelled y then
-            (let d := act d (.giveUp y); if d.cfg.refCounted then act d (.leaveDec y) else d)
-           else act d (.enter y))
-        else d) d
-      (d, "gaveup")
+      let (d, w) := settleSlot d x.slot obs
+      (d, "gaveup" ++ w)
     else
       let d := act d (.enter t)
       (d, if (d.s.thr t).pc == .inCS then "inside" else "waiting")
   | .inCS =>
     if d.cancelled t then
-      let (d, w) := unready (act d (.bodyCtxDone t)) t
+      let (d, w) := unready (act d (.bodyCtxDone t)) t obs
       (d, "cancelled" ++ w)
     else
       let d := act d (.bodyGet t)
       if (d.s.thr t).pc == .creating then (d, "creating")
       else
-        let (d, w) := unready d t
+        let (d, w) := unready d t obs
         (d, "found" ++ w)
   | .creating =>
     let d := act (act d (.bodyCreate t)) (.bodyStore t)
-    let (d, w) := unready d t
+    let (d, w) := unready d t obs
     (d, "created" ++ w)
   | .left1 =>
     -- after `giveUp` in the reference-counted variant the thread is at `left1` too, but the
@@ -111,13 +128,13 @@ def goThread (d : DSt) (t : Nat) : DSt × String :=
 def stepLine (d : DSt) (line : String) : DSt × String :=
   match words line with
   | "case" :: _ => ({ cfg := d.cfg }, line)
-  | ["go", ts] =>
+  | "go" :: ts :: obs =>
     match ts.toNat? with
     | none => (d, "bad-op")
     | some t =>
       if t < 1 || t > 6 then (d, "bad-op") else
-      let (d', msg) := goThread d t
-      if msg == "skip" || msg == "busy" then (d', msg) else (d', s!"go {t} {msg} {render d'}")
+      let (d', msg) := goThread d t (obs.head?.bind (·.toNat?))
+      if msg == "skip" then (d', msg) else (d', s!"go {t} {msg} {render d'}")
   | ["burst", ns] =>
     match ns.toNat? with
     | none => (d, "skip")
@@ -169,8 +186,155 @@ def stepLine (d : DSt) (line : String) : DSt × String :=
       (d, s!"destroyold {k} ok {render d}")
   | _ => (d, "bad-op")
 
+/-! ### Trace inclusion (domain C18s): replay a log of genuinely concurrent SummonSwamp calls.
+    `count` / `uncount` are logged under summonMu, `wait` / `ready` / `giveup` / `unready` under the
+    slot's own mutex, body events by the (single) owner of the slot.  The close callback takes no
+    lock: its line is logged before the `CompareAndDelete`. -/
+
+structure T18 where
+  cfg : Cfg
+  s : St := init
+  /-- log slot number ↦ model slot -/
+  smap : List (Nat × Nat) := []
+  /-- log instance number ↦ model instance -/
+  imap : List (Nat × Nat) := []
+  seq : Nat := 0
+  /-- thread ↦ line at which it entered the body -/
+  readyAt : List (Nat × Nat) := []
+  /-- model instance ↦ line at which a callback took it out of the map -/
+  unmapAt : List (Nat × Nat) := []
+
+def fire (t : T18) (a : Act) : Option T18 := (step t.cfg t.s a).map (fun s' => { t with s := s' })
+
+def showMap (t : T18) : String :=
+  match t.s.slotMap with
+  | none => "-"
+  | some σ => match t.smap.find? (·.2 == σ) with
+    | some p => toString p.1
+    | none => "?"
+
+def tline (t : T18) (line : String) : T18 × String :=
+  match words line with
+  | ["case", _] => ({ cfg := t.cfg }, line)
+  | ["count", ts, ss, cs, ms] =>
+    match ts.toNat?, ss.toNat?, cs.toInt? with
+    | some th, some sl, some c =>
+      match fire t (.lookup th) with
+      | none => (t, "bad count: not a step (call number reused)")
+      | some t1 =>
+        let σ := (t1.s.thr th).slot
+        let fresh := t.s.slotMap.isNone
+        match t.smap.lookup sl with
+        | some σ' =>
+          if σ' != σ || fresh then (t1, s!"bad count: call {th} counted itself on slot object {sl}, which is not the slot mapped for the name (a slot dropped while in use)")
+          else check t1 σ c ms
+        | none =>
+          if !fresh then (t1, s!"bad count: call {th} got a new slot object {sl} while slot {showMap t} is mapped")
+          else check { t1 with smap := (sl, σ) :: t1.smap } σ c ms
+    | _, _, _ => (t, "bad-op")
+  | ["uncount", ts, _, cs, ms] =>
+    match ts.toNat?, cs.toInt? with
+    | some th, some c =>
+      match fire t (.leaveDec th) with
+      | none => (t, s!"bad uncount: call {th} is not at its decrement in the model")
+      | some t1 => check t1 (t1.s.thr th).slot c ms
+    | _, _ => (t, "bad-op")
+  | ["wait", ts, _] =>
+    match ts.toNat?.bind (fun th => (fire t (.enter th)).map (fun t1 => (th, t1))) with
+    | some (th, t1) => if (t1.s.thr th).pc == .waiting then (t1, "ok") else (t1, s!"bad wait: call {th} goes to sleep, in the model the slot is free")
+    | none => (t, "bad wait: the call re-evaluates its loop without a broadcast")
+  | ["ready", ts, _] =>
+    match ts.toNat?.bind (fun th => (fire t (.enter th)).map (fun t1 => (th, t1))) with
+    | some (th, t1) =>
+      if (t1.s.thr th).pc == .inCS then ({ t1 with readyAt := (th, t1.seq) :: t1.readyAt }, "ok")
+      else (t1, s!"bad ready: call {th} enters the body while another call owns the slot: two calls in the body")
+    | none => (t, "bad ready: the call re-evaluates its loop without a broadcast")
+  | ["giveup", ts, _] =>
+    match ts.toNat?.bind (fun th => fire t (.giveUp th)) with
+    | some t1 => (t1, "ok")
+    | none => (t, "bad giveup: not a step (the slot is free in the model)")
+  | ["create", ts] =>
+    match ts.toNat? with
+    | none => (t, "bad-op")
+    | some th =>
+      match fire t (.bodyGet th) with
+      | none => (t, s!"bad create: call {th} is not in the body")
+      | some t1 =>
+        if (t1.s.thr th).pc != .creating then (t, s!"bad create: call {th} constructs an instance while one is mapped") else
+        match fire t1 (.bodyCreate th) with
+        | some t2 =>
+          if t2.s.live.length > 1 then (t2, s!"bad create: {t2.s.live.length} live instances of one swamp\t#F:C18-slot-dropped-while-in-use")
+          else (t2, "ok")
+        | none => (t, "bad create")
+  | ["stored", ts, is] =>
+    match ts.toNat?, is.toNat? with
+    | some th, some i =>
+      match (t.s.thr th).pc with
+      | .created mi =>
+        match fire t (.bodyStore th) with
+        | some t1 => ({ t1 with imap := (i, mi) :: t1.imap }, "ok")
+        | none => (t, "bad stored")
+      | _ => (t, s!"bad stored: call {th} has not constructed an instance")
+    | _, _ => (t, "bad-op")
+  | ["found", ts, is] =>
+    match ts.toNat?, is.toNat? with
+    | some th, some i =>
+      match t.imap.lookup i with
+      | none => (t, s!"bad found: call {th} was handed an instance that was never stored")
+      | some mi =>
+        if (t.s.thr th).pc != .inCS then (t, s!"bad found: call {th} is not in the body") else
+        if t.s.swampMap == some mi then
+          match fire t (.bodyGet th) with
+          | some t1 => (t1, "ok")
+          | none => (t, "bad found")
+        else
+          -- the instance was unmapped after this call entered the body: its `bodyGet` (which only
+          -- moves the call itself) commutes to before that callback
+          let entered := (t.readyAt.lookup th).getD 0
+          match t.unmapAt.lookup mi with
+          | some at_ =>
+            if at_ > entered then
+              ({ t with s := { t.s with thr := setThr t.s th ⟨.leaving, (t.s.thr th).slot⟩ } }, "ok")
+            else (t, s!"bad found: call {th} was handed instance {i}, which had left the map before the call entered the body")
+          | none => (t, s!"bad found: call {th} was handed instance {i}, which is not the mapped one")
+    | _, _ => (t, "bad-op")
+  | ["unready", ts, _] =>
+    match ts.toNat? with
+    | none => (t, "bad-op")
+    | some th =>
+      let t0 := if (t.s.thr th).pc == .inCS then (fire t (.bodyCtxDone th)).getD t else t
+      match fire t0 (.leaveUnready th) with
+      | some t1 => (t1, "ok")
+      | none => (t, s!"bad unready: call {th} is not leaving the body in the model")
+  | ["callback", is] =>
+    match is.toNat?.bind (fun i => t.imap.lookup i) with
+    | none => (t, "bad callback: an instance that was never stored")
+    | some mi =>
+      let a := if mi ∈ t.s.live then Act.closeInst mi else Act.staleCallback mi
+      match fire t a with
+      | some t1 =>
+        let t1 := if t.s.swampMap == some mi && t1.s.swampMap.isNone then { t1 with unmapAt := (mi, t1.seq) :: t1.unmapAt } else t1
+        if t.s.swampMap.isSome && t.s.swampMap != some mi && t1.s.swampMap.isNone then
+          (t1, "ok\t#F:C18-stale-callback-unmaps-live-instance")
+        else (t1, "ok")
+      | none => (t, "bad callback: not a step")
+  | ["hang"] => (t, "bad hang: a SummonSwamp call never returned")
+  | _ => (t, "bad-op")
+where
+  check (t : T18) (σ : Nat) (c : Int) (ms : String) : T18 × String :=
+    if (t.s.slots σ).count != c then (t, s!"bad: slot count is {c}, model {(t.s.slots σ).count}")
+    else if showMap t != ms then (t, s!"bad: the name is mapped to slot {ms}, model {showMap t}")
+    else (t, "ok")
+
+def tstep (t : T18) (line : String) : T18 × String :=
+  let r := tline { t with seq := t.seq + 1 } line
+  r
+
 def run (args : List String) : IO UInt32 := do
   let kv := parseArgs args
+  if arg kv "mode" == "trace" then
+    lineLoop tstep { cfg := { refCounted := arg kv "refCounted" == "yes", callbackCompares := arg kv "callbackCompares" == "yes" } }
+    return 0
   lineLoop stepLine { cfg := { refCounted := arg kv "refCounted" == "yes", callbackCompares := arg kv "callbackCompares" == "yes" } }
   return 0
 
